@@ -37,7 +37,7 @@ type c06 struct {
 func (*c06) ID() string    { return "C06" }
 func (*c06) Level() string { return "exploration" }
 func (*c06) Rule() string {
-	return "terms are built as trees by a seeded generator (never parsed on the way in): (1) a fixed list of classic hard shapes (- - a, -(1), - (1), 1 - -1, a- - -b, (a-b)-c, a-(b-c), (a:-b):-c, f((a,b)), f(:-), [-], - + 1, (a|b), '|' and ',' as atoms and functors, {a,b}, '{}'(x), '[]'(x), '.'(a,b) ...) under the default table with and without a prelude op(200,xf,!!) op(700,xfx,===) op(200,xfy,and) op(900,fy,not) op(699,fy,~~) op(201,xf,@@); (2) the enumeration outer-operator x inner-operator x operand position over every operator of the case's table (complete for the default table + prelude, 80 sampled per random table), operand leaves sampled from 22 kinds (atoms, numbers of both signs, zeros, variables, operator atoms, lists, curly terms, min/max integers ...); (3) random terms of depth <=4 over atoms of every lexical class (solo, graphic, alphanumeric, needing quotes, escapes, control characters, empty, non-ASCII letters and non-letters), 64-bit integers incl. min/max, finite floats incl. hostile ones, shared variables, operator compounds in operator and in functional notation, operators as atoms, lists, partial lists, curly terms, '$VAR'(N) (not under writeq). Each case runs under the default operator table or a table reached by a seeded sequence of valid op/3 directives (new symbolic/alphanumeric/quoted operators of all 7 specifiers, redefinitions, removals, prefix+infix and prefix+postfix atoms) and a double_quotes value. Every term is written in up to 5 modes (writeq, write_canonical, write_term quoted(true), write_term quoted(true)+ignore_ops(true), write_term quoted(true)+variable_names naming every variable; to user_output or an explicit stream) and read back from W+' .' by read_term/2,3 or read/1,2 in the same interpreter; the term read must be a variant of the term written (floats by bit pattern). Numbers: N -> number_chars/number_codes -> text -> N' must be bit-identical; the float list contains doubles whose shortest decimal lies within 2^-9 ulp of a rounding midpoint (math/big), powers of ten, subnormals, extremes and random bit patterns. Non-trivial: the term contains an operator compound (written in operator notation under the case's table) as an operand of another operator compound, or an atom that is not a plain unquoted token, or a float; numbers: every float. Distinct by hash of (operator directives, double_quotes, term)."
+	return "terms are built as trees by a seeded generator (never parsed on the way in): (1) a fixed list of classic hard shapes (- - a, -(1), - (1), 1 - -1, a- - -b, (a-b)-c, a-(b-c), (a:-b):-c, f((a,b)), f(:-), [-], - + 1, (a|b), '|' and ',' as atoms and functors, {a,b}, '{}'(x), '[]'(x), '.'(a,b) ...) under the default table with and without a prelude op(200,xf,!!) op(700,xfx,===) op(200,xfy,and) op(900,fy,not) op(699,fy,~~) op(201,xf,@@) op(200,yfx,lft) op(400,xfy,rgt); (2) the enumeration outer-operator x inner-operator x operand position over every operator of the case's table (complete for the default table + prelude, 80 sampled per random table), operand leaves sampled from 22 kinds (atoms, numbers of both signs, zeros, variables, operator atoms, lists, curly terms, min/max integers ...); (3) random terms of depth <=4 over atoms of every lexical class (solo, graphic, alphanumeric, needing quotes, escapes, control characters, empty, non-ASCII letters and non-letters), 64-bit integers incl. min/max, finite floats incl. hostile ones, shared variables, operator compounds in operator and in functional notation, operators as atoms, lists, partial lists, curly terms, '$VAR'(N) (not under writeq). Each case runs under the default operator table or a table reached by a seeded sequence of valid op/3 directives (new symbolic/alphanumeric/quoted operators of all 7 specifiers, redefinitions, removals, prefix+infix and prefix+postfix atoms) and a double_quotes value. Every term is written in up to 5 modes (writeq, write_canonical, write_term quoted(true), write_term quoted(true)+ignore_ops(true), write_term quoted(true)+variable_names naming every variable; to user_output or an explicit stream) and read back from W+' .' by read_term/2,3 or read/1,2 in the same interpreter; the term read must be a variant of the term written (floats by bit pattern). Numbers: N -> number_chars/number_codes -> text -> N' must be bit-identical; the float list contains doubles whose shortest decimal lies within 2^-9 ulp of a rounding midpoint (math/big), powers of ten, subnormals, extremes and random bit patterns. Non-trivial: the term contains an operator compound (written in operator notation under the case's table) as an operand of another operator compound, or an atom that is not a plain unquoted token, or a float; numbers: every float. Distinct by hash of (operator directives, double_quotes, term)."
 }
 func (*c06) Assumptions() []string {
 	return []string{
@@ -581,7 +581,9 @@ func V1() *term.Term { return term.V(1) }
 // the fixed operator prelude that gives the shapes of c06Fixed their intended reading
 // (~~ and @@ sit one priority step below/above the standard 700 and 200 operators: the boundary where a
 // reader that compares binding priorities instead of operator priorities goes wrong)
-var c06FixedDirs = []c06Dir{{200, "xf", "!!"}, {700, "xfx", "==="}, {200, "xfy", "and"}, {900, "fy", "not"}, {699, "fy", "~~"}, {201, "xf", "@@"}}
+var c06FixedDirs = []c06Dir{{200, "xf", "!!"}, {700, "xfx", "==="}, {200, "xfy", "and"}, {900, "fy", "not"}, {699, "fy", "~~"}, {201, "xf", "@@"},
+	// a yfx operator at the priority of the xfy operators ^ and 'and', an xfy operator at the priority of the yfx operators * and /
+	{200, "yfx", "lft"}, {400, "xfy", "rgt"}}
 
 // ---- operator tables -----------------------------------------------------------------------------------
 
